@@ -37,6 +37,71 @@ var realSpellings = []struct {
 	{"tcp", "tcp", false}, {"tcp+tls", "tcp+tls", true},
 	{"http", "http", false}, {"ws", "http", false},
 	{"https", "https", true}, {"wss", "https", true},
+	{"dns", "dns", false},
+}
+
+// udpRelay forwards datagrams between clients and the server and records them.
+type udpRelay struct {
+	pc  net.PacketConn
+	mu  sync.Mutex
+	buf bytes.Buffer
+}
+
+func newUDPRelay(to string) (*udpRelay, error) {
+	pc, err := net.ListenPacket("udp", "127.0.0.1:0")
+	if err != nil {
+		return nil, err
+	}
+	dst, err := net.ResolveUDPAddr("udp", to)
+	if err != nil {
+		return nil, err
+	}
+	r := &udpRelay{pc: pc}
+	var mu sync.Mutex
+	back := map[string]net.Conn{}
+	go func() {
+		b := make([]byte, 65536)
+		for {
+			n, from, err := pc.ReadFrom(b)
+			if err != nil {
+				return
+			}
+			r.mu.Lock()
+			r.buf.Write(b[:n])
+			r.mu.Unlock()
+			mu.Lock()
+			c := back[from.String()]
+			if c == nil {
+				if c, err = net.DialUDP("udp", nil, dst); err != nil {
+					mu.Unlock()
+					continue
+				}
+				back[from.String()] = c
+				go func(c net.Conn, from net.Addr) {
+					rb := make([]byte, 65536)
+					for {
+						m, err := c.Read(rb)
+						if err != nil {
+							return
+						}
+						r.mu.Lock()
+						r.buf.Write(rb[:m])
+						r.mu.Unlock()
+						pc.WriteTo(rb[:m], from)
+					}
+				}(c, from)
+			}
+			mu.Unlock()
+			c.Write(b[:n])
+		}
+	}()
+	return r, nil
+}
+
+func (r *udpRelay) wire() []byte {
+	r.mu.Lock()
+	defer r.mu.Unlock()
+	return append([]byte{}, r.buf.Bytes()...)
 }
 
 type relay struct {
@@ -127,7 +192,21 @@ func honestReal(c Case) (kind, detail string) {
 	if c.ServerCert || sp.tls {
 		scfg.Certificate, scfg.PrivateKey = p.Server.CertPEM, p.Server.KeyPEM
 	}
+	if sp.server == "dns" {
+		pc, err := net.ListenPacket("udp", "127.0.0.1:0")
+		if err != nil {
+			return "inconclusive", err.Error()
+		}
+		port = pc.LocalAddr().(*net.UDPAddr).Port
+		pc.Close()
+	}
 	switch {
+	case sp.server == "dns":
+		s := server.NewDnsServer()
+		s.Address = addr.MustParseAddress(fmt.Sprintf("dns://127.0.0.1:%d", port))
+		s.Domain = "server.test"
+		s.ServerConfig = scfg
+		srv = s
 	case strings.HasPrefix(sp.server, "tcp"):
 		s := server.NewSocketServer()
 		s.Address = addr.MustParseAddress(fmt.Sprintf("%s://127.0.0.1:%d", sp.server, port))
@@ -150,22 +229,35 @@ func honestReal(c Case) (kind, detail string) {
 	case <-time.After(300 * time.Millisecond): // http Startup blocks while serving
 	}
 	defer srv.Shutdown()
-	var rl *relay
-	for i := 0; i < 100; i++ {
-		if cc, err := net.Dial("tcp", fmt.Sprintf("127.0.0.1:%d", port)); err == nil {
-			cc.Close()
-			break
+	var wireOf func() []byte
+	url := ""
+	if sp.server == "dns" {
+		time.Sleep(1500 * time.Millisecond) // the DNS server installs its handler one second after it starts listening
+		ur, err := newUDPRelay(fmt.Sprintf("127.0.0.1:%d", port))
+		if err != nil {
+			return "inconclusive", err.Error()
 		}
-		time.Sleep(20 * time.Millisecond)
-	}
-	rl, err := newRelay(fmt.Sprintf("127.0.0.1:%d", port))
-	if err != nil {
-		return "inconclusive", err.Error()
-	}
-	defer rl.ln.Close()
-	url := fmt.Sprintf("%s://%s", sp.client, rl.ln.Addr().String())
-	if !strings.HasPrefix(sp.client, "tcp") {
-		url += "/ws"
+		defer ur.pc.Close()
+		wireOf = ur.wire
+		url = fmt.Sprintf("dns://server.test?direct=false&dns=%s", ur.pc.LocalAddr().String())
+	} else {
+		for i := 0; i < 100; i++ {
+			if cc, err := net.Dial("tcp", fmt.Sprintf("127.0.0.1:%d", port)); err == nil {
+				cc.Close()
+				break
+			}
+			time.Sleep(20 * time.Millisecond)
+		}
+		rl, err := newRelay(fmt.Sprintf("127.0.0.1:%d", port))
+		if err != nil {
+			return "inconclusive", err.Error()
+		}
+		defer rl.ln.Close()
+		wireOf = rl.wire
+		url = fmt.Sprintf("%s://%s", sp.client, rl.ln.Addr().String())
+		if !strings.HasPrefix(sp.client, "tcp") {
+			url += "/ws"
+		}
 	}
 	list := &upstream.Upstreams{}
 	if err := list.UnmarshalFlag(url); err != nil {
@@ -208,7 +300,7 @@ func honestReal(c Case) (kind, detail string) {
 		}
 	}
 	time.Sleep(50 * time.Millisecond)
-	inClear := bytes.Contains(rl.wire(), marker)
+	inClear := bytes.Contains(wireOf(), marker)
 	protected := sp.tls || c.ServerCert
 	switch {
 	case c.MustSecure && established && !protected:
